@@ -44,10 +44,12 @@ PROPS = {
             "claimed": True, "engine": "fmt",
             "level_text": ("Theorems over the model of the pipeline: the prefix filter is sound and complete (`filterPrefix_sound/complete`), the candidates handed to a formatter are exactly the invoked candidates extending the typed word - all of them under CARAPACE_UNFILTERED (`C02_pipeline_exact`, `C02_unfiltered_length`, `C02_nothing_added`), sanitising preserves 'extends the typed word' (`san_prefix`, `C02_fish_sound`); the bash/tcsh common-prefix step is proved harmless when not taken and its violation under case-insensitive matching is a decided counterexample and a listed finding. The model is bound to the code by exact comparison of the output of all 13 formatters on every generated case; the property oracle (every emitted text extends the typed word, every extending candidate is emitted, nothing else) is evaluated on the real output."),
             "level_note": FMT_NOTE},
-    "C03": {"modules": ["Carapace.Props.C03"], "ops": [("value", {"quick": 6000, "thorough": 300000})], "rule": FMT_RULE, "assumptions": FMT_ASSUME,
+    "C03": {"modules": ["Carapace.Props.C03", "Carapace.Props.C03Shells", "Carapace.Props.C03Zsh"], "ops": [("value", {"quick": 6000, "thorough": 300000})], "rule": FMT_RULE, "assumptions": FMT_ASSUME,
             "claimed": True, "engine": "fmt",
-            "level_text": ("Per shell a theorem `C03_<shell>` states that the text the formatter model inserts, read by that shell's reader specification, is exactly one word equal to the sanitised value, for every value (induction over the string; the per-character obligations are decided by the kernel over all of ASCII against the replacer tables and character sets regenerated from /repo, and lifted to every character). "
-                           "Where the pinned code violates the property the class is an explicit hypothesis and a listed finding. The model is bound to the code by exact comparison of the real formatter output with the model's on every generated case, and the reader oracle is evaluated on the real output."),
+            "level_text": ("Per shell a theorem states that the text the formatter model inserts, read by that shell's reader specification, is exactly one word equal to the (sanitised) value, for every value (induction over the string; the per-character obligations are decided by the kernel over all of ASCII against the replacer tables and character sets regenerated from /repo, and lifted to every character): "
+                           "`C03_bash` (bare / double-quoted / tilde branches, no hypothesis on the characters), `C03_zsh_dflt` and `C03_zsh_dq` (the `_describe` escaping is inverted by the consumer: `zshUndescribe_describe`; default state incl. `~/` and named directories, and both double-quote states), `C03_powershell`, `C03_xonsh` (bare, `'..'`, `r'..'` with the exact parity condition on backslashes), `C03_nushell` (bare, `\"..\"`, `~\"..\"`), `C03_tcsh`, `C03_oil_partial`, `C03_elvish`, `C03_export`. "
+                           "Where the pinned code violates the property the excluded characters are explicit hypotheses - exactly the listed findings (powershell `'` and CR; xonsh `'`, CR, a trailing odd backslash; nushell tab; tcsh braces; oil everything special) - each with a decided counterexample showing the hypothesis is needed. Not proved: zsh's two single-quote states. "
+                           "The model is bound to the code by exact comparison of the real formatter output with the model's on every generated case, and the reader oracle is evaluated on the real output for all shells."),
             "level_note": FMT_NOTE},
     "C04": {"modules": ["Carapace.Props.C04"], "ops": [("value", {"quick": 6000, "thorough": 300000})], "rule": FMT_RULE, "assumptions": FMT_ASSUME,
             "claimed": True, "engine": "fmt",
